@@ -67,6 +67,8 @@ def _generic_model(s, inputs):
     """The first model of a refuted goal is often degenerate (zeros, differences of 1e-9) and then does not
     survive float replay.  Look for a counter-model at generic, well separated input values."""
     reals = [c for c in inputs if z3.is_real(c)]
+    s.set("timeout", 1500)
+    budget = time.time() + 8
     patterns = [
         lambda i: _PRIMES[i % len(_PRIMES)],
         lambda i: _PRIMES[i % len(_PRIMES)] * (1 if i % 2 == 0 else -1),
@@ -75,6 +77,8 @@ def _generic_model(s, inputs):
     ]
     for keep in (len(reals), max(1, len(reals) // 2), max(1, len(reals) // 4)):
         for pat in patterns:
+            if time.time() > budget:
+                return None
             s.push()
             try:
                 for i, c in enumerate(reals[:keep]):
